@@ -18,6 +18,49 @@ def run(ctx):
     r = tlc.run_tlc("ImagePixel", workers=16, constants=dict(MaxC=3, MaxW=2) if quick else dict(MaxC=4, MaxW=3), invariants=["InclusionExclusionIsMass", "Additive", "NonNegativeAtMostOne"], heap="6g")
     ctx.model("ImagePixel: corner inclusion-exclusion of the box CDF = overlap mass, additive over a pixel grid, within [0,1]", r)
     imgs.run(ctx, "C11", 150 if quick else 1500, 4 if quick else 30)
+    legacy_persimage(ctx, 60 if quick else 600)
+
+
+def legacy_persimage(ctx, n):
+    """growth beyond the listed properties: the deprecated PersImage class against LegacyPersImage.tla (notes only)"""
+    from fractions import Fraction
+    from ..common import run_driver_parallel, unfl
+    from ..fix import fix
+    rng = ctx.rng
+    jobs, skels = [], []
+    for t in range(n):
+        ny = rng.choice([2, 4]); nx = rng.choice([2, 3, 5])
+        maxBD = rng.choice([16, 32]); hasspecs = int(rng.random() < 0.5)
+        dgms = []
+        for _ in range(rng.randint(1, 3)):
+            pts = []
+            for _ in range(rng.randint(1, 3)):
+                b = rng.randrange(0, maxBD, 8); p = rng.randrange(8, maxBD + 1, 8)
+                pts.append([b, b + p])
+            dgms.append(pts)
+        if not hasspecs:   # make the first diagram span the intended range so that the learned specs are the decidable ones
+            dgms[0].append([0, maxBD])
+        sp = rng.choice([0, 0, maxBD // ny])
+        jobs.append(dict(nx=nx, ny=ny, hasspecs=hasspecs, maxBD=float(maxBD), minBD=0.0, sp=float(sp), dgms=[[[float(b), float(d)] for b, d in dg] for dg in dgms]))
+        skels.append(dict(nx=nx, ny=ny, hasspecs=hasspecs, maxBD=maxBD, minBD=0, sp=sp, dgms=dgms))
+    results, _ = run_driver_parallel("legacy_image.py", jobs, nproc=8)
+    cases = []
+    for sk, r in zip(skels, results):
+        if "imgs" not in r:
+            continue
+        calls = []
+        for dg, im in zip(sk["dgms"], r["imgs"]):
+            calls.append([dg, [[fix(Fraction(unfl(x))) for x in row] for row in im["img"]]])
+        cases.append(dict(nx=sk["nx"], ny=sk["ny"], hasspecs=sk["hasspecs"], maxBD=sk["maxBD"], minBD=sk["minBD"], sp=sk["sp"], calls=calls))
+    if not cases:
+        ctx.notes.append("legacy PersImage: no result (class removed or raising); not one of the listed properties")
+        return
+    verdicts, st = tlc.run_batch("LegacyPersImage", cases, nproc=8)
+    agree = sum(1 for v in verdicts if v[2] == "ok")
+    ctx.extra["beyond_properties_legacy_PersImage"] = dict(histories=len(cases), agree=agree, calls=sum(len(c["calls"]) for c in cases),
+                                                          note="specs are learned from the first transform and then stick (modelled as coded)")
+    if agree != len(cases):
+        ctx.notes.append("legacy PersImage: %d of %d histories differ from LegacyPersImage.tla (not one of the listed properties; reported as a note)" % (len(cases) - agree, len(cases)))
 
 
 def replay(ctx, rec):
